@@ -33,7 +33,12 @@ def body(run):
                     todo.append(dict(model=model, kshape=(kh, kw), find_r2=True, thresh=None, src=src, ref=ref,
                                      mask_kind='exhaustive-3x3', style='fixed'))
     for k, c in enumerate(todo):
-        out = ik.run_fit(c['model'], c['kshape'], c['find_r2'], c['thresh'], c['src'], c['ref'])
+        # every third block stores the source's invalid pixels under a number instead of NaN (a number that is not one of its valid values)
+        nd_ = [float('nan'), -9999.0, 0.0][k % 3]
+        if not (nd_ != nd_) and bool(np.any(c['src'] == nd_)):
+            nd_ = float('nan')
+        c['src_nodata'] = nd_
+        out = ik.run_fit(c['model'], c['kshape'], c['find_r2'], c['thresh'], c['src'], c['ref'], src_nodata=nd_)
         a, b = out['norm']
         key = (c['model'], c['mask_kind'], 'h!=w' if c['kshape'][0] != c['kshape'][1] else 'h=w')
         dist[str(key)] = dist.get(str(key), 0) + 1
